@@ -42,6 +42,13 @@ def plan(tier, seed):
         specs.append(dict(name="shortage-%d" % p, mode="interp", what="shortage", part=p, parts=2 if q else 6, Kmax=4 if q else 5))
     for p in range(2 if q else 6):
         specs.append(dict(name="nodonor-%d" % p, mode="interp", what="nodonor", seed=seed, part=p, n=4))
+    # the same failure scenarios in an interpreter started with -O (assert statements compiled away): the errors the statement
+    # promises must not hinge on an assert
+    opt = {"PYTHONOPTIMIZE": "1"}
+    specs.append(dict(name="frontends-O", mode="interp", what="frontends", seed=seed, env=opt))
+    specs.append(dict(name="shortage-O", mode="interp", what="shortage", part=0, parts=2 if q else 6, Kmax=4 if q else 5, env=opt))
+    specs.append(dict(name="nodonor-O", mode="interp", what="nodonor", seed=seed, part=1, n=4, env=opt))
+    specs.append(dict(name="tasks-O", mode="interp", what="tasks", input=1, mp=True, seed=seed, classes=1, env=opt))
     if not q:
         for i in range(3):
             specs.append(dict(name="death-%d" % i, mode="interp", what="death", input=i, seed=seed, timeout=240))
